@@ -2,6 +2,7 @@ package main
 
 import (
 	"fmt"
+	"github.com/go-openapi/swag"
 	"go/types"
 	"os"
 	"path/filepath"
@@ -9,6 +10,7 @@ import (
 	"sort"
 	"strings"
 	"sync"
+	"sync/atomic"
 
 	"golang.org/x/tools/go/packages"
 	"golang.org/x/tools/go/ssa"
@@ -76,7 +78,7 @@ func loadEngine(repo, pkgPath string, overlay map[string][]byte) (*Engine, error
 		denyPkgs: map[string]bool{}}
 	for _, p := range []string{"reflect", "encoding/json", "text/template", "os", "net", "runtime", "syscall",
 		"sync", "sync/atomic", "log", "unsafe", "internal/bytealg", "io/ioutil", "os/exec", "time", "internal/reflectlite",
-		"html/template", "go/format", "golang.org/x/tools/imports", "gopkg.in/yaml.v3", "encoding/gob", "math/rand"} {
+		"html/template", "go/format", "github.com/go-openapi/swag", "golang.org/x/tools/imports", "gopkg.in/yaml.v3", "encoding/gob", "math/rand"} {
 		e.denyPkgs[p] = true
 	}
 	registerIntrinsics(e)
@@ -164,10 +166,12 @@ func (e *Engine) initPackage(p *ssa.Package, nested bool) {
 	}
 	e.mu.Unlock()
 	reason := ""
-	if initFn := p.Func("init"); initFn != nil && initFn.Blocks != nil {
+	if initFn := p.Func("init"); initFn != nil && initFn.Blocks != nil && !e.denyPkgs[p.Pkg.Path()] {
 		x := newExec(e, nil, nil, nil)
 		x.initPkg = p
+		atomic.AddInt32(&initWrites, 1)
 		func() {
+			defer atomic.AddInt32(&initWrites, -1)
 			defer func() {
 				if r := recover(); r != nil {
 					switch v := r.(type) {
@@ -370,4 +374,46 @@ func buildOverlay(repo, harnessRoot, pkgPath string) (map[string][]byte, map[str
 		repl[virt] = filepath.Join(dir, n)
 	}
 	return ov, repl, nil
+}
+
+// bridgeSwagPrefix: the generator installs swag.GoNamePrefixFunc during its init. The engine
+// calls the real (linked) swag natively on concrete names, so the linked swag must use the same
+// prefix function: it is bridged to an interpretation of whatever function value the interpreted
+// init stored (i.e. the current source of generator.prefixForName).
+func (e *Engine) bridgeSwagPrefix() {
+	for _, p := range e.prog.AllPackages() {
+		if p.Pkg.Path() != "github.com/go-openapi/swag" {
+			continue
+		}
+		g, ok := p.Members["GoNamePrefixFunc"].(*ssa.Global)
+		if !ok {
+			return
+		}
+		e.mu.Lock()
+		c := e.globals[g]
+		e.mu.Unlock()
+		if c == nil {
+			return
+		}
+		fv, ok := c.V.(*FuncVal)
+		if !ok || fv.Fn == nil {
+			return
+		}
+		swag.GoNamePrefixFunc = func(name string) string {
+			x := newExec(e, nil, nil, nil)
+			var out string
+			func() {
+				defer func() {
+					if r := recover(); r != nil {
+						out = ""
+					}
+				}()
+				r := x.call(fv, []Value{mkStr(name)}, nil)
+				if sv, ok := r.(*StrVal); ok && sv.IsConcrete() {
+					out = sv.Conc()
+				}
+			}()
+			return out
+		}
+	}
 }
